@@ -1,4 +1,5 @@
 import Operon.Lemmas.C02
+import Operon.Model.MitoWork
 /-! C02 helper lemmas for the logic pathway: evaluating the tree in which the NAMES `true` / `false` were turned into
     constants is Python's evaluation of the ORIGINAL tree in a namespace that additionally binds `true` / `false` to the
     booleans — same result, same environment interactions except for the two extra name lookups. -/
@@ -194,6 +195,69 @@ theorem metabolize_success (T : Tables) (env : Env) (cfg : Cfg) (latched : Bool)
             · simp only [Prod.mk.injEq, Outcome.result.injEq, Option.some.injEq, true_and] at h
               obtain ⟨rfl, rfl, _, rfl⟩ := h
               exact ⟨rfl, hb⟩
+
+/-! #### literal trees: Python's value is the structural value, nothing is executed -/
+
+mutual
+theorem pyEval_lit (names : List String) (env : Env) : ∀ e v, litEval e = some v → pyEval names env e = ([], .ok v)
+  | .const c, v, h => by
+    simp only [litEval, Option.some.injEq] at h; subst h; unfold pyEval; rfl
+  | .list es, v, h => by
+    simp only [litEval, Option.map_eq_some_iff] at h
+    obtain ⟨vs, hvs, rfl⟩ := h
+    unfold pyEval; rw [pyList_lit names env es vs hvs]; rfl
+  | .tuple es, v, h => by
+    simp only [litEval, Option.map_eq_some_iff] at h
+    obtain ⟨vs, hvs, rfl⟩ := h
+    unfold pyEval; rw [pyList_lit names env es vs hvs]; rfl
+  | .name _, _, h => by simp [litEval] at h
+  | .binop _ _ _, _, h => by simp [litEval] at h
+  | .unop _ _, _, h => by simp [litEval] at h
+  | .call _ _ _ _, _, h => by simp [litEval] at h
+  | .compare _ _ _, _, h => by simp [litEval] at h
+  | .boolop _ _, _, h => by simp [litEval] at h
+  | .ifexp _ _ _, _, h => by simp [litEval] at h
+  | .other _ _, _, h => by simp [litEval] at h
+theorem pyList_lit (names : List String) (env : Env) :
+    ∀ es vs, litEvalList es = some vs → pyList names env es = ([], .ok vs)
+  | [], vs, h => by simp only [litEvalList, Option.some.injEq] at h; subst h; unfold pyList; rfl
+  | e :: es, vs, h => by
+    unfold litEvalList at h
+    split at h
+    · rename_i v vs' hv hvs
+      simp only [Option.some.injEq] at h; subst h
+      unfold pyList; rw [pyEval_lit names env e v hv, pyList_lit names env es vs' hvs]; rfl
+    · simp at h
+end
+
+mutual
+theorem dup_lit : ∀ e v, litEval e = some v → dupAnywhere e = false
+  | .const _, _, _ => by simp [dupAnywhere]
+  | .list es, v, h => by
+    simp only [litEval, Option.map_eq_some_iff] at h
+    obtain ⟨vs, hvs, _⟩ := h
+    simp [dupAnywhere, dupList_lit es vs hvs]
+  | .tuple es, v, h => by
+    simp only [litEval, Option.map_eq_some_iff] at h
+    obtain ⟨vs, hvs, _⟩ := h
+    simp [dupAnywhere, dupList_lit es vs hvs]
+  | .name _, _, h => by simp [litEval] at h
+  | .binop _ _ _, _, h => by simp [litEval] at h
+  | .unop _ _, _, h => by simp [litEval] at h
+  | .call _ _ _ _, _, h => by simp [litEval] at h
+  | .compare _ _ _, _, h => by simp [litEval] at h
+  | .boolop _ _, _, h => by simp [litEval] at h
+  | .ifexp _ _ _, _, h => by simp [litEval] at h
+  | .other _ _, _, h => by simp [litEval] at h
+theorem dupList_lit : ∀ es vs, litEvalList es = some vs → dupAnywhereList es = false
+  | [], _, _ => by simp [dupAnywhereList]
+  | e :: es, vs, h => by
+    unfold litEvalList at h
+    split at h
+    · rename_i v vs' hv hvs
+      simp [dupAnywhereList, dup_lit e v hv, dupList_lit es vs' hvs]
+    · simp at h
+end
 
 /-! #### names occurring anywhere in a tree; trees without `true` / `false` are fixed points of the rewriting -/
 
